@@ -130,7 +130,8 @@ def sh(cmd, cwd, timeout, env=None):
     except subprocess.TimeoutExpired:
         return 124, "timeout"
 
-def rerun_missed():
+def rerun_missed(a):
+    import fnmatch
     seen = {}
     for pth in (OUT, OUT_CHECKS):
         if os.path.exists(pth):
@@ -140,6 +141,8 @@ def rerun_missed():
                     seen[(r["file"], r["line"], r["op"], r["k"])] = r
     out = os.path.join(HERE, "mutation", "results_rerun.jsonl")
     for key, m in seen.items():
+        if not (fnmatch.fnmatch(m["file"], a.files) or a.files in m["file"]):
+            continue
         sh(["git", "checkout", "-q", "--", "."], REPO, 60)
         p = os.path.join(REPO, m["file"])
         src = open(p).read().split("\n")
@@ -147,7 +150,7 @@ def rerun_missed():
             print("source moved:", key); continue
         src[m["line"] - 1] = m["new"]
         open(p, "w").write("\n".join(src))
-        order = FILES[m["file"]] + [c for c in ALL if c not in FILES[m["file"]]]
+        order = FILES[m["file"]] + ([] if a.relevant_only else [c for c in ALL if c not in FILES[m["file"]]])
         st, by = "missed", ""
         for c in order:
             rc2, out2 = sh(["./check", c, "quick"], VERIF, 2400, {"VERIF_METADATA": os.path.join(REPO, "artifacts/polkadot_metadata.scale"), "VERIF_SEED": "11", "VERIF_HANG_CONFIRM_S": "60"})
@@ -209,13 +212,14 @@ def main():
     ap.add_argument("--mode", default="both", choices=["both", "tests", "checks"],
                     help="both: tests, then checks for survivors (results.jsonl). tests / checks: only that half, for two labs running in parallel (results_tests.jsonl / results_checks.jsonl); merge with --report")
     ap.add_argument("--report", action="store_true")
+    ap.add_argument("--relevant-only", action="store_true", help="rerun-missed: only the checks listed for the file")
     ap.add_argument("--rerun-missed", action="store_true", help="run the recorded missed mutants again with the machinery as it is now in LAB (results_rerun.jsonl)")
     ap.add_argument("--only-survivors", action="store_true", help="checks mode: only mutants that results_tests.jsonl records as survives_tests")
     a = ap.parse_args()
     if a.report:
         return report()
     if a.rerun_missed:
-        return rerun_missed()
+        return rerun_missed(a)
     global OUT
     if a.mode == "tests":
         OUT = OUT_TESTS
